@@ -90,9 +90,12 @@ func (spc *realStatefulPodControl) CreateStatefulPod(set *apps.StatefulSet, pod 
 
 func (spc *realStatefulPodControl) UpdateStatefulPod(set *apps.StatefulSet, pod *v1.Pod) error {
 	attemptedUpdate := false
+	// unwritten is true while pod carries changes of a failed attempt that were
+	// never written: such a pod looks consistent but must not be taken for done
+	unwritten := false
 	err := retry.RetryOnConflict(retry.DefaultBackoff, func() error {
 		// assume the Pod is consistent
-		consistent := true
+		consistent := !unwritten
 		// if the Pod does not conform to its identity, update the identity and dirty the Pod
 		if !identityMatches(set, pod) {
 			updateIdentity(set, pod)
@@ -123,8 +126,10 @@ func (spc *realStatefulPodControl) UpdateStatefulPod(set *apps.StatefulSet, pod 
 		if updated, err := spc.podLister.Pods(set.Namespace).Get(pod.Name); err == nil {
 			// make a copy so we don't mutate the shared cache
 			pod = updated.DeepCopy()
+			unwritten = false
 		} else {
 			utilruntime.HandleError(fmt.Errorf("error getting updated Pod %s/%s from lister: %v", set.Namespace, pod.Name, err))
+			unwritten = true
 		}
 
 		return updateErr
